@@ -89,8 +89,15 @@ JoinMenu == <<
   Join(Id("leftouter"), Tab("B", <<Summarize(<<ECol(Id("n"), Call("count", <<>>))>>, <<ECol(None, ck)>>, FALSE)>>), <<ck>>),
   Join(Id("inner"), Tab("B", <<Join(Id("inner"), Tab("C", <<>>), <<ck>>)>>), <<ck>>),
   Join(Id("leftouter"), Tab("B", <<Join(None, Tab("C", <<Where(Bin("GT", Col("c"), Num("7")))>>), <<ck>>), Project(<<PCol("k", None), PCol("c", None)>>)>>), <<ck>>),
-  Join(Id("inner"), Tab("C", <<>>), <<ck>>)
+  Join(Id("inner"), Tab("C", <<>>), <<ck>>),
+  Join(None, Tab("C", <<>>), <<ck>>),
+  Join(Id("leftouter"), Tab("C", <<>>), <<ck>>),
+  \* equalities between columns of one side are ordinary null-safe comparisons
+  Join(Id("inner"), Tab("B", <<>>), <<Call("not", <<Bin("Eq", Qual("$left", "k"), Qual("$left", "a"))>>)>>),
+  Join(Id("leftouter"), Tab("B", <<>>), <<ck, Bin("NE", Bin("Eq", Qual("$right", "k"), Qual("$right", "b")), Col("true"))>>),
+  Join(None, Tab("B", <<Summarize(<<>>, <<ECol(None, ck)>>, FALSE)>>), <<ck>>)
 >>
+SecondJoins == {14, 15, 16}
 \* what may precede / follow a join
 LeftMenu == <<
   Where(Bin("GT", Col("a"), Num("1"))),
@@ -98,7 +105,8 @@ LeftMenu == <<
   Take(Num("1")),
   Sort(<<Term(ck, TRUE, TRUE, FALSE, TRUE)>>),
   Extend(<<ECol(Id("z"), Bin("Plus", Col("a"), Num("1")))>>),
-  As("L")
+  As("L"),
+  Summarize(<<>>, <<ECol(None, ck), ECol(None, Col("a"))>>, FALSE)
 >>
 AfterMenu == <<
   Where(Call("isnull", <<Col("b")>>)),
@@ -120,7 +128,7 @@ PlanChoices(c) ==
          (CASE Len(c) = 0 -> {0} \cup DOMAIN LeftMenu
             [] Len(c) = 1 -> DOMAIN JoinMenu
             [] Len(c) = 2 -> {0} \cup DOMAIN AfterMenu
-            [] Len(c) = 3 -> IF MaxOps >= 4 /\ c[2] <= 7 THEN {0, 14} ELSE {}
+            [] Len(c) = 3 -> IF MaxOps >= 4 /\ c[2] <= 7 THEN {0} \cup SecondJoins ELSE {}
             [] OTHER -> {})
 PlanOps(c) ==
   CASE PlanFamily = "seq" -> [i \in DOMAIN c |-> SemMenu[c[i]]]
